@@ -279,6 +279,34 @@ func e1Scens(prop, tier string) []e1Scen {
 			}
 		}
 	}
+	if prop == "C04" {
+		// the numbering clauses hold whatever happens to a Write: a rotation that fails on storage (the next segment's
+		// file cannot be created), and random-access units whose parameter sets cannot be parsed, so that the Write that
+		// has to build the init segment from them fails; the writer carries on in both cases. Low-Latency is left
+		// out: its playlist cannot be served at all after a failed rotation (known finding of C18, which runs these
+		// Low-Latency scenarios)
+		word := []sym{{T: 0, D: "q", K: "R"}, {T: 0, D: "q", K: "n"}, {T: 0, D: "q", K: "n"}, {T: 0, D: "q", K: "n"}}
+		for _, variant := range []string{"mpegts", "fmp4"} {
+			for _, cfg := range []muxCfg{mcfg(variant, true, 3, "h264"), mcfg(variant, true, 3, "h264", "aac44")} {
+				for fa := 1; fa <= 6; fa++ {
+					out = append(out, e1Scen{Prop: prop, Cfg: cfg, Alpha: word, Mode: "fault", Len: 4 * (fa + 5), FaultAt: fa, Name: fmt.Sprintf("numbering-after-rotation-fault-%d", fa)})
+				}
+			}
+		}
+		for _, variant := range []string{"mpegts", "fmp4"} {
+			for _, codec := range []string{"h264", "h265", "av1"} {
+				if variant == "mpegts" && codec != "h264" {
+					continue
+				}
+				n := 3
+				for _, cfg := range []muxCfg{mcfg(variant, false, n, codec), mcfg(variant, false, n, codec, "aac44")} {
+					for fa := 1; fa <= 6; fa++ {
+						out = append(out, e1Scen{Prop: prop, Cfg: cfg, Alpha: word, Mode: "paramfault", Len: 4 * (fa + 6), FaultAt: fa, Name: fmt.Sprintf("numbering-after-bad-parameter-sets-%d", fa)})
+					}
+				}
+			}
+		}
+	}
 	// audio-only MPEG-TS starts a new segment only after 100 writes: periodic words long enough for four segments
 	tsa := mcfg("mpegts", false, 3, "aac44")
 	per := e1Scen{Prop: prop, Cfg: tsa, Alpha: alphaAudio(tsa), Mode: "periodic", Period: 2, Len: 430, Name: "ts-audio-only-periodic"}
